@@ -189,18 +189,26 @@ def run(ctx):
     proof_gate(ctx)
 
     distinct = len({json.dumps([r['ws']['files'], r['ws'].get('git'), r['ws']['args'], r['ws'].get('cwd'), r['ws']['abs_args'],
-                                r['ws'].get('no_force'), r['ws']['dry_run'], r['ws']['policy'], r['ws'].get('via'), r['ws'].get('symlinks')],
+                                r['ws'].get('no_force'), r['ws']['dry_run'], r['ws']['policy'], r['ws'].get('via'), r['ws'].get('symlinks'),
+                                r['ws'].get('regal_dirs'), r['ws'].get('manifests'), r['ws'].get('cfg_roots'), r['ws'].get('extra')],
                                sort_keys=True) for r in results})
     reach = {}
     for r in results:
         k = r['ws'].get('via') or ('symlink-inside-worktree' if r['ws'].get('symlinks') else 'real-path')
         reach[k] = reach.get(k, 0) + 1
+    fam, nargs = {}, {}
+    for r in results:
+        k = r['ws']['name'].split('/')[0].rstrip('0123456789')
+        k = k if k in ('multi', 'rel-outside', 'submodule-file', 'submodule-dir', 'rand', 'rand-multi', 'regression', 'known') else 'single-target'
+        fam[k] = fam.get(k, 0) + 1
+        nargs[str(len(r['ws']['args']))] = nargs.get(str(len(r['ws']['args'])), 0) + 1
     cov = proof_coverage(ctx, {
         'evaluations': len(mod_ix) * 2 + (len(results) - len(mod_ix)),
         'distinct_nontrivial': distinct,
         'rule': 'distinct (files, git states, repository layout, arguments, cwd, flags) workspaces run through the real binary; each gives one '
                 'FindGitRepo comparison and one verdict+tree comparison',
-        'runs': len(results), 'runs_compared_with_model': len(mod_ix), 'reached_through': reach, 'outcome_histogram': hist, 'mismatch_find_git_repo': len(g1), 'mismatch_verdict_or_tree': len(g2),
+        'runs': len(results), 'runs_compared_with_model': len(mod_ix), 'reached_through': reach,
+        'scenario_families': fam, 'command_lines_by_number_of_arguments': nargs, 'outcome_histogram': hist, 'mismatch_find_git_repo': len(g1), 'mismatch_verdict_or_tree': len(g2),
         'predicate_hits': pred_hits,
         'samples': [{'name': r['ws']['name'], 'cmd': r['cmd'], 'exit': r['exit'], 'repo': g['repo'], 'status': g['status'], 'porcelain': r.get('porcelain')}
                     for r, g in list(zip(results, gits))[:3]],
